@@ -6,7 +6,10 @@ Workload: seeded span trees (depth <= 6, fan-out <= 4) executed by the recursive
 and async nodes, nodes rejected by a call-site `when:` or by the runtime's filter, events at seeded
 points, children run directly / on another thread through a captured `Frame::current(ctxt).in_fn`
 / as async siblings polled interleaved by a seeded executor, roots started under incoming ids
-pushed as typed `TraceId`/`SpanId`, as hex strings (both cases) and as integers. Every tree runs on
+pushed as typed `TraceId`/`SpanId`, as hex strings (both cases) and as integers, and under an
+incoming trace id WITHOUT a usable span id (`SpanCtxt::new(Some(t), None, None).push(ctxt)`, a lone
+`trace_id` property in every form, a trace id next to an all-zero / unparseable span id), also
+handed to another thread through a frame captured inside it. Every tree runs on
 two runtimes: a generic `Runtime<.., ThreadLocalCtxt, ..>` static and a type-erased `AmbientSlot`.
 The rng is a counter (never repeats, never zero).
 
@@ -118,8 +121,14 @@ fn init_envs() {
 #[derive(Clone, Debug)]
 struct Amb {
     ids: Ids,
-    /// Where the ids come from: "none", "span", "props-typed", "props-hex", "props-HEX", "props-int"
+    /// Where the ids come from: "none", "span", "props-typed", "props-hex", "props-HEX", "props-int",
+    /// "trace-only-*", "trace+*-span-*"
     src: &'static str,
+    /// events that read the ids straight from the context show them in decimal
+    decimal: bool,
+    /// the context holds an incoming trace id plus an UNUSABLE span id: only the trace id is settled
+    /// (span id on events and the parent of a span started here are unconstrained)
+    loose_span: bool,
 }
 
 struct Oracle<'a> {
@@ -141,11 +150,12 @@ struct Oracle<'a> {
     n_handoffs: u64,
     n_groups_interleaved: u64,
     n_incoming: u64,
+    n_trace_only: u64,
     max_enabled_depth: u32,
 }
 
-fn parse_id(text: &str, src: &str) -> Option<u128> {
-    if src == "props-int" {
+fn parse_id(text: &str, decimal: bool) -> Option<u128> {
+    if decimal {
         text.parse::<u128>().ok()
     } else {
         u128::from_str_radix(text, 16).ok()
@@ -172,6 +182,7 @@ fn via_name(v: &Via) -> &'static str {
             IdForm::HexUpper => "props-HEX",
             IdForm::Int => "props-int",
         },
+        Via::TraceOnly { how, .. } => how.name(),
         Via::Header { .. } => "header",
         Via::Remote => "remote",
     }
@@ -218,6 +229,7 @@ impl<'a> Oracle<'a> {
             n_handoffs: 0,
             n_groups_interleaved: 0,
             n_incoming: 0,
+            n_trace_only: 0,
             max_enabled_depth: 0,
         }
     }
@@ -287,7 +299,7 @@ impl<'a> Oracle<'a> {
                     ),
                 );
             }
-            if got.parent != outer.ids.span {
+            if !outer.loose_span && got.parent != outer.ids.span {
                 self.bad(
                     format!(
                         "wrong-span-parent:{}:via={}:outer={}{}",
@@ -309,7 +321,12 @@ impl<'a> Oracle<'a> {
                 self.span_ids.push((s, format!("node {}", node.id)));
             }
             self.max_enabled_depth = self.max_enabled_depth.max(enabled_depth + 1);
-            Amb { ids: got, src: "span" }
+            Amb {
+                ids: got,
+                src: "span",
+                decimal: false,
+                loose_span: false,
+            }
         } else {
             if is_span {
                 self.n_disabled += 1;
@@ -380,11 +397,11 @@ impl<'a> Oracle<'a> {
                         );
                     }
                     for e in &evs {
-                        let got_t = e.trace.as_deref().map(|t| parse_id(t, inside.src));
-                        let got_s = e.span.as_deref().map(|t| parse_id(t, inside.src));
+                        let got_t = e.trace.as_deref().map(|t| parse_id(t, inside.decimal));
+                        let got_s = e.span.as_deref().map(|t| parse_id(t, inside.decimal));
                         let want_t = inside.ids.trace.map(Some);
                         let want_s = inside.ids.span.map(|s| Some(s as u128));
-                        if got_t != want_t || got_s != want_s {
+                        if got_t != want_t || (!inside.loose_span && got_s != want_s) {
                             self.bad(
                                 format!("event-ids:{}:ambient={}", k, inside.src),
                                 format!(
@@ -424,7 +441,7 @@ impl<'a> Oracle<'a> {
                             }
                             inside.clone()
                         }
-                        Via::Props { trace, span, form: _ } => {
+                        Via::Props { trace, span, form } => {
                             self.n_incoming += 1;
                             let amb = Amb {
                                 ids: Ids {
@@ -433,6 +450,8 @@ impl<'a> Oracle<'a> {
                                     span: Some(*span),
                                 },
                                 src: vn,
+                                decimal: matches!(form, IdForm::Int),
+                                loose_span: false,
                             };
                             let sig = format!("incoming-ids-not-visible:{}", vn);
                             self.expect_reads(node.id, Point::ViaIn(i), &amb.ids, true, &sig);
@@ -440,9 +459,58 @@ impl<'a> Oracle<'a> {
                             self.span_ids.push((*span, format!("incoming span id at node {} step {}", node.id, i)));
                             amb
                         }
+                        Via::TraceOnly { trace, how, handoff } => {
+                            self.n_incoming += 1;
+                            self.n_trace_only += 1;
+                            // the statement settles the trace id; with an unusable span id next to it
+                            // the other two ids are taken as observed (and must then stay put)
+                            let seen_in = self
+                                .obs
+                                .get(&(node.id, Point::ViaIn(i)))
+                                .and_then(|v| v.first())
+                                .map(|o| o.ids)
+                                .unwrap_or(Ids::EMPTY);
+                            let loose = how.has_unusable_span();
+                            let want = if loose {
+                                Ids {
+                                    trace: Some(*trace),
+                                    ..seen_in
+                                }
+                            } else {
+                                Ids {
+                                    trace: Some(*trace),
+                                    parent: None,
+                                    span: None,
+                                }
+                            };
+                            let amb = Amb {
+                                ids: want,
+                                src: vn,
+                                decimal: how.decimal(),
+                                loose_span: loose,
+                            };
+                            let sig = format!("incoming-trace-id-not-visible:{}", vn);
+                            self.expect_reads(node.id, Point::ViaIn(i), &amb.ids, true, &sig);
+                            if *handoff {
+                                self.n_handoffs += 1;
+                                let sig = format!("handoff-frame-ids:inside-{}", vn);
+                                let o = self.expect_reads(node.id, Point::HopIn(i), &amb.ids, true, &sig);
+                                self.expect_reads(node.id, Point::HopOut(i), &amb.ids, true, &format!("ambient-not-restored:after-child:on-other-thread:inside-{}", vn));
+                                if let Some(o) = o {
+                                    if o.thread == enter.thread {
+                                        self.bad(
+                                            "interpreter:handoff-on-same-thread".into(),
+                                            format!("thread hand-off of node {} step {} ran on the parent's thread", node.id, i),
+                                        );
+                                    }
+                                }
+                            }
+                            self.expect_reads(node.id, Point::ViaOut(i), &amb.ids, true, &format!("ambient-not-restored:after-child:inside-{}", vn));
+                            amb
+                        }
                         Via::Header { .. } | Via::Remote => unreachable!("not generated for C04"),
                     };
-                    self.walk(child, &child_outer, vn, child_depth, child_under_disabled && !matches!(via, Via::Props { .. }));
+                    self.walk(child, &child_outer, vn, child_depth, child_under_disabled && !matches!(via, Via::Props { .. } | Via::TraceOnly { .. }));
                     self.expect_reads(
                         node.id,
                         Point::After(i),
@@ -523,6 +591,7 @@ struct Features {
     handoff_in_span: bool,
     group_in_span: bool,
     incoming: bool,
+    trace_only: bool,
 }
 
 /// `anc`: is there an enabled ancestor span.
@@ -545,8 +614,11 @@ fn features(n: &Node, anc: bool, f: &mut Features) {
                 if matches!(via, Via::Thread) && (anc || en) && has_enabled(node) {
                     f.handoff_in_span = true;
                 }
-                if matches!(via, Via::Props { .. }) {
+                if matches!(via, Via::Props { .. } | Via::TraceOnly { .. }) {
                     f.incoming = true;
+                }
+                if matches!(via, Via::TraceOnly { .. }) && has_enabled(node) {
+                    f.trace_only = true;
                 }
                 features(node, anc || en, f);
             }
@@ -570,6 +642,7 @@ struct Shapes {
     handoff: HashSet<u64>,
     interleaved: HashSet<u64>,
     incoming: HashSet<u64>,
+    trace_only: HashSet<u64>,
 }
 
 static SHAPES: LazyLock<Mutex<Shapes>> = LazyLock::new(|| Mutex::new(Shapes::default()));
@@ -608,6 +681,8 @@ fn eval<X: Env>(r: &mut Report, seed: u64, index: u64, tree: &Node) {
     let none = Amb {
         ids: Ids::EMPTY,
         src: "none",
+        decimal: false,
+        loose_span: false,
     };
     o.walk(tree, &none, "top", 0, false);
     o.finish();
@@ -620,6 +695,7 @@ fn eval<X: Env>(r: &mut Report, seed: u64, index: u64, tree: &Node) {
     r.observe("thread-handoffs", o.n_handoffs);
     r.observe("groups-actually-interleaved", o.n_groups_interleaved);
     r.observe("incoming-id-frames", o.n_incoming);
+    r.observe("incoming-trace-id-without-usable-span-id", o.n_trace_only);
     r.observe(&format!("trees:{}", o.env), 1);
     r.observe("nodes", tree.count() as u64 - 1);
 
@@ -645,6 +721,9 @@ fn eval<X: Env>(r: &mut Report, seed: u64, index: u64, tree: &Node) {
         }
         if f.incoming {
             s.incoming.insert(h);
+        }
+        if f.trace_only {
+            s.trace_only.insert(h);
         }
     }
     if r.wants_sample() && f.nested_enabled && index % 7 == 0 {
@@ -716,6 +795,7 @@ fn main() {
                 "with_thread_handoff_inside_a_span": s.handoff.len(),
                 "with_async_siblings_actually_interleaved_inside_a_span": s.interleaved.len(),
                 "with_incoming_ids": s.incoming.len(),
+                "with_incoming_trace_id_but_no_usable_span_id_and_a_span_below": s.trace_only.len(),
             }),
         );
     }
